@@ -6,6 +6,7 @@ mod interpose;
 mod util;
 mod world;
 mod timed;
+mod chain;
 #[cfg(feature = "async")]
 mod stream;
 #[cfg(not(feature = "force-inprocess"))]
@@ -38,6 +39,9 @@ fn main() {
     match args[1].as_str() {
         "world" => world::run(&args[2..]),
         "timed" => timed::run(&args[2..]),
+        "chain" => chain::run(&args[2..]),
+        #[cfg(not(feature = "force-inprocess"))]
+        "chainchild" => chain::child(&args[2..]),
         #[cfg(feature = "async")]
         "stream" => stream::run(&args[2..]),
         #[cfg(not(feature = "force-inprocess"))]
